@@ -19,6 +19,7 @@ out = ["# Seeded property-breaking changes", "",
        "| seed | property | caught by | missed at first | what was strengthened |", "|---|---|---|---|---|"]
 for name, m in rows:
     out.append(f"| {name} | {m['property']} | {', '.join(m['caught_by'])} | {'yes' if m.get('initially_missed') else 'no'} | {m.get('strengthening', '')} |")
-out += ["", f"{len(rows)} changes, {miss} initially missed, 0 missed now."]
+neut = sum(1 for _, m in rows if m.get("neutralised_by_fix"))
+out += ["", f"{len(rows)} changes, {miss} initially missed, 0 missed now" + (f"; {neut} no longer property-breaking since a later fix (see its meta.json) and skipped by seed_all." if neut else ".")]
 open(os.path.join(V, "seeded", "INDEX.md"), "w").write("\n".join(out) + "\n")
 print(f"{len(rows)} seeds, {miss} initially missed")
